@@ -76,7 +76,7 @@ def gen_cases(ctx, lib, n, allowed_classes):
     rng = ctx.rng
     cases = []
     for k in range(n):
-        pop = widen_strings(rng, lib.schema, G.gen_population(rng, lib.schema, rng.randint(3, 10)))
+        pop = widen_strings(rng, lib.schema, W.gen_population(rng, lib.schema, rng.randint(3, 10)))
         mode = k % 6
         resp = False
         if mode == 0:
@@ -248,7 +248,7 @@ def evaluate(ctx, b, lib, cases, model_exe):
         open(p, "w", encoding="latin-1").write(c.text)
         files.append((p, len(c.pop) + 2))
     reals = R.run_real(b, lib, files, ctx.work)
-    models = R.run_model(model_exe, lib, [c.text for c in cases])
+    models = R.run_model(model_exe, lib, [c.text for c in cases], abstract=getattr(lib.schema, "abstract", ()))
     n_viol = n_corr = 0
     for c, rr, mr in zip(cases, reals, models):
         ctx.count(1, key=(lib.schema.name, c.text))
@@ -300,7 +300,7 @@ def schemas_for(ctx, n):
     out = []
     for k in range(n):
         rng = random.Random(f"C01-schema:{ctx.seed}:{k}")
-        out.append((f"{k}", G.gen_schema(rng, f"vs{k}", n_entities=rng.randint(3, 6), cover_all_kinds=(k % 2 == 0))))
+        out.append((f"{k}", W.SchemaX(G.gen_schema(rng, f"vs{k}", n_entities=rng.randint(3, 6), cover_all_kinds=(k % 2 == 0)))))
     return out
 
 
